@@ -396,14 +396,16 @@ func (i *Interp) format(fr *frame, verb rune, flags string, it iface) value {
 			return "false"
 		}
 		if verb == 'd' || verb == 'v' {
-			w, signed := intInfo(it.t)
+			_, signed := intInfo(it.t)
+			var digits value
 			if signed {
 				t64 := i.ts.SExt(v, 64)
-				return i.callFn(fr, i.pkgFunc("strconv", "FormatInt"), i.fromTerm(t64, types.Typ[types.Int64]), 10)
+				digits = i.callFn(fr, i.pkgFunc("strconv", "FormatInt"), i.fromTerm(t64, types.Typ[types.Int64]), 10)
+			} else {
+				t64 := i.ts.ZExt(v, 64)
+				digits = i.callFn(fr, i.pkgFunc("strconv", "FormatUint"), i.fromTerm(t64, types.Typ[types.Uint64]), 10)
 			}
-			_ = w
-			t64 := i.ts.ZExt(v, 64)
-			return i.callFn(fr, i.pkgFunc("strconv", "FormatUint"), i.fromTerm(t64, types.Typ[types.Uint64]), 10)
+			return i.padNumber(fr, digits, flags)
 		}
 		if verb == 'c' || verb == 'q' || verb == 'U' {
 			r := i.intConv(v, it.t, types.Typ[types.Int32])
@@ -438,6 +440,67 @@ func (i *Interp) format(fr *frame, verb rune, flags string, it iface) value {
 		return types.TypeString(v.t, func(p *types.Package) string { return p.Name() })
 	}
 	return fmt.Sprintf("%%!%c(%s)", verb, it.t)
+}
+
+// padNumber applies width / zero / left-align / sign flags to rendered digits
+// (the string's length is concrete; its bytes may be symbolic).
+func (i *Interp) padNumber(fr *frame, digits value, flags string) value {
+	if flags == "" {
+		return digits
+	}
+	zeroPad, left, plus, space := false, false, false, false
+	p := 0
+	for p < len(flags) && strings.IndexByte("+-# 0", flags[p]) >= 0 {
+		switch flags[p] {
+		case '0':
+			zeroPad = true
+		case '-':
+			left = true
+		case '+':
+			plus = true
+		case ' ':
+			space = true
+		}
+		p++
+	}
+	width := 0
+	if p < len(flags) {
+		w, err := strconv.Atoi(flags[p:])
+		if err != nil {
+			panic(unsupported{"fmt flags " + flags + " on a symbolic integer"})
+		}
+		width = w
+	}
+	b := strBytes(digits)
+	neg := false
+	if len(b) > 0 {
+		// the sign character is concrete or decided
+		if i.truth(i.byteEq(b[0], uint8('-')), fr, "fmt-sign") {
+			neg = true
+			b = b[1:]
+		}
+	}
+	sign := ""
+	if neg {
+		sign = "-"
+	} else if plus {
+		sign = "+"
+	} else if space {
+		sign = " "
+	}
+	pad := width - len(b) - len(sign)
+	var out []value
+	switch {
+	case pad <= 0:
+		out = append(strBytes(sign), b...)
+	case left:
+		out = append(append(strBytes(sign), b...), strBytes(strings.Repeat(" ", pad))...)
+	case zeroPad:
+		out = append(append(strBytes(sign), strBytes(strings.Repeat("0", pad))...), b...)
+	default:
+		out = append(append(strBytes(strings.Repeat(" ", pad)), strBytes(sign)...), b...)
+	}
+	return mkString(out)
 }
 
 func (i *Interp) fmtString(fr *frame, verb rune, flags string, s value) value {
